@@ -57,6 +57,32 @@ def grid_scenarios() -> List[dict]:
     return out
 
 
+def corpus() -> List[dict]:
+    """minimised scenarios of the defects this check found (they run first, always)"""
+    out = []
+    # F70: client RST, PRIORITY puts the stream back into the tree, the application (still writing) unblocks it
+    out.append({"seed": 1, "density": 0.0, "initial_window": 100, "profile": "corpus", "corpus": "F70", "actions": [
+        {"do": "open", "sid": 1, "app": [{"start": 200}, {"body": 300, "more": True}, {"turns": 30}, {"body": 50, "more": True}, {"turns": 30}, {"body": 50, "more": False}]},
+        {"do": "open", "sid": 3, "app": [{"start": 200}, {"turns": 60}, {"body": 50, "more": False}]},
+        {"do": "turns", "n": 10}, {"do": "rst", "sid": 1}, {"do": "turns", "n": 5}, {"do": "prio", "sid": 1, "dep": 0}, {"do": "settle"}, {"do": "drain_all"}]})
+    # F71: the connection is closed (client EOF) while a DATA frame is being flushed
+    for seed in range(6):
+        out.append({"seed": seed, "density": 1.0, "profile": "corpus", "corpus": "F71", "terminal": True, "actions": [
+            {"do": "open", "sid": 1, "app": [{"start": 200}, {"body": 20000, "more": True}, {"turns": 100}, {"body": 5, "more": False}]},
+            {"do": "turns", "n": 6}, {"do": "closed"}, {"do": "settle"}]})
+    # F72: a dependency loop resolved by reprioritize leaves a removed stream scheduled (priority 2.0.0)
+    out.append({"seed": 1, "density": 0.2, "initial_window": 65535, "profile": "corpus", "corpus": "F72", "actions": [
+        {"do": "open", "sid": 1, "app": [{"start": 200}, {"turns": 50}, {"body": 100, "more": False}]},
+        {"do": "open", "sid": 3, "app": [{"start": 200}, {"turns": 60}, {"body": 100, "more": False}], "prio": {"dep": 1}},
+        {"do": "open", "sid": 5, "app": [{"start": 200}, {"body": 100, "more": False}], "prio": {"dep": 3}},
+        {"do": "prio", "sid": 1, "dep": 3}, {"do": "settle"}, {"do": "drain_all"}]})
+    # F36: the final send must not return before END_STREAM is written (every write is a checkpoint on trio)
+    for seed in range(4):
+        out.append({"seed": seed, "density": 1.0, "trio_like": True, "initial_window": 65535, "profile": "corpus", "corpus": "F36", "actions": [
+            {"do": "open", "sid": 1, "app": [{"start": 200}, {"body": 70000, "more": False}]}, {"do": "settle"}, {"do": "drain_all"}]})
+    return out
+
+
 def check_direct(ctx: Ctx, scenarios: List[dict], prop: str = "C09") -> None:
     results = []
     for sc in scenarios:
@@ -108,6 +134,8 @@ def _count(ctx: Ctx, sc: dict, res: dict) -> None:
     waited = any(o["op"] in ("pushWake", "drainWake") for o in res["ops"]) or any(a["waiting"] for q in res["quiescent"] for a in q["apps"].values())
     ctx.count("stalled_with_data_at_quiescence", stalled)
     ctx.count("a_send_waited", waited)
+    if res["client"]["error"] and "shrunk below 0" in res["client"]["error"]:
+        ctx.count("oracle_limit(h2 client cannot hold a negative receive window)", 1)
     if res["ghost_at"] is not None:
         ctx.count("libm_ghost(priority.next returned a non-member)", 1)
     kinds = sorted({a["do"] for a in sc["actions"] if a["do"] not in ("settle", "turns", "open", "drain_all")})
@@ -243,13 +271,13 @@ def check_e2e(ctx: Ctx, cases: List[dict]) -> None:
 
 
 def run(ctx: Ctx) -> None:
+    H.limit_memory()
     rng = ctx.rng
-    scenarios = grid_scenarios()
-    if not ctx.thorough:
-        scenarios = scenarios[::3]
+    grid = grid_scenarios()
+    scenarios = corpus() + (grid if ctx.thorough else grid[::3])
     scenarios += [H.gen_scenario(rng, "flow") for _ in range(ctx.budget(2400, 14000))]
-    for lo in range(0, len(scenarios), 500):
-        check_direct(ctx, scenarios[lo: lo + 500], "C09")
+    for lo in range(0, len(scenarios), 250):
+        check_direct(ctx, scenarios[lo: lo + 250], "C09")
     check_e2e(ctx, [gen_e2e(rng) for _ in range(ctx.budget(24, 250))])
 
 
